@@ -68,7 +68,7 @@ class Case(object):
         return ev
 
 
-def run_once(case, vapp_fields, evolutions, migrations, other_fields=None, other_evos=None):
+def run_once(case, vapp_fields, evolutions, migrations, other_fields=None, other_evos=None, fail_first=None):
     from django_evolution.compat.apps import get_apps
     from django_evolution.evolve import EvolveAppTask, Evolver
     from django_evolution.utils.apps import get_app_label
@@ -78,7 +78,7 @@ def run_once(case, vapp_fields, evolutions, migrations, other_fields=None, other
     # the evolutions are discovered the normal way (modules under vapp.evolutions); only the
     # migrations are handed in, since they exist in memory only
     evorig.set_evolutions('vapp', evolutions or [])
-    tr = evorig.Trace()
+    tr = evorig.Trace(fail_first=fail_first)
     res = {'ok': True, 'error': None, 'required': None}
     with tr.recording():
         try:
@@ -134,14 +134,16 @@ def run(ctx):
             from django.db import models
             from django_evolution.mutations import AddField
             other_evos = [{'label': 'w_e1', 'mutations': [AddField('Wal', 'w1', models.IntegerField, null=True)]}]
-        starts = ['fresh'] + ['evo%d' % i for i in range(len(case.evo_fields) + 1)] + ['migrated']
+        # 'interrupted': the hand-over run itself was started before and died while saving its records
+        starts = ['fresh'] + ['evo%d' % i for i in range(len(case.evo_fields) + 1)] + ['migrated', 'interrupted',
+                                                                                      'interrupted_early']
         for start in starts:
             rep = {'k': k, 'm': m, 's': s, 'with_other_app': other, 'start': start}
             evorig.fresh_databases()
             evorig.clear_evolutions()
             pre_recorded = []
             if start != 'fresh':
-                i = len(case.evo_fields) if start == 'migrated' else int(start[3:])
+                i = len(case.evo_fields) if start in ('migrated', 'interrupted', 'interrupted_early') else int(start[3:])
                 base_fields = ['base']
                 r0 = run_once(case, base_fields, None, None, ['base'] if other else None)
                 if not r0['ok']:
@@ -161,14 +163,34 @@ def run(ctx):
                         else:
                             ctx.fail(None, 'the first hand-over (to prepare the migrated start state) fails: %s' % r2['error'], rep)
                         continue
+                if start in ('interrupted', 'interrupted_early'):
+                    if start == 'interrupted':
+                        pred = lambda sql: 'django_project_version' in sql
+                    else:
+                        # ... or right after the named migrations were written, before anything else happened
+                        seen = []
+
+                        def pred(sql):
+                            if 'INSERT INTO "django_migrations"' in sql:
+                                seen.append(1)
+                                return False
+                            return bool(seen)
+                    r3 = run_once(case, final_fields, case.evolutions(), case.migrations(), other_final, other_evos,
+                                  fail_first=pred)
+                    ctx.count('%s_first_attempt:%s' % (start, 'failed' if not r3['ok'] else 'completed'))
                 pre_recorded = recorder()
             # ---- the run under test -----------------------------------------------------------
             res = run_once(case, final_fields, case.evolutions(), case.migrations(), other_final, other_evos)
             ctx.case(rep, nontrivial=True, sample_cap=8)
             ctx.count('start:%s' % ('evo' if start.startswith('evo') else start))
+            if start.startswith('interrupted'):
+                ctx.count('%s:retry_%s' % (start, 'ok' if res['ok'] else 'fails'))
             if not res['ok']:
                 if s == m and start != 'fresh' and 'was not found (required by "evolution:vapp:to_migrations")' in res['error']:
                     ctx.fail('F45', 'the hand-over run fails: %s' % res['error'], rep)
+                elif start == 'interrupted' and all(x in pre_recorded for x in names[:s]) and \
+                        'was not found (required by "evolution:vapp:to_migrations")' in res['error']:
+                    ctx.fail('F61', 'the repeated hand-over run fails: %s' % res['error'], rep)
                 else:
                     ctx.fail(None, 'the hand-over run fails: %s' % res['error'], rep)
                 continue
